@@ -1,5 +1,5 @@
 // vt-build: light
-// vt-flags: -fno-sanitize=null,alignment,pointer-overflow -O2
+// vt-flags: -fno-sanitize=null,alignment,pointer-overflow -fsanitize-recover=address -O2
 // (the few /repo sources needed are #included at the end of this file instead of being listed as "vt-src": the harness
 //  Makefile records header dependencies of the last translation unit only, and a change to rpc/serialize.h or
 //  common/iovector.h must rebuild this harness)
@@ -20,8 +20,10 @@
 // whose claim failed without touching them; neither is a read or write, which is what C12 is about.
 // Sender memory is released before the bytes are deserialized (a receiver is another process): a pointer that
 // comes through from the sender is a heap-use-after-free report, not a silent success.
-// Every case runs in a forked child (batched): a fatal case writes a {"e":"Fatal",...} line with the case
-// description and the sweep continues with the next case.
+// A fault in one case must not stop the sweep: ASan runs in recover mode (a report marks the case), SIGSEGV/SIGBUS/
+// SIGFPE/SIGILL/SIGALRM inside the real code are left with siglongjmp; either way the case is written as a
+// {"e":"Fatal",...} line with its description and the stage (deser | read | lookup) and the sweep goes on.  Whatever
+// still kills the process (abort, uncaught exception) only ends a forked child; the next child resumes behind it.
 #include <photon/rpc/serialize.h>
 #include <photon/common/alog.h>
 #include <photon/common/checksum/crc32c.h>
@@ -32,6 +34,7 @@
 #include <new>
 #include <sys/mman.h>
 #include <sys/wait.h>
+#include <setjmp.h>
 #include <sanitizer/asan_interface.h>
 #include "vt.h"
 
@@ -315,7 +318,12 @@ static Where locate(const void* ptr, size_t len) {
         }
     return Where{4, 0, 0};
 }
-static void read_all(const void* p, size_t n) { uint64_t s = 0; auto c = (const volatile uint8_t*)p; for (size_t i = 0; i < n; i++) s += c[i]; g_sink += s; }
+static volatile int g_asan_hits = 0;      // sanitizer reports in the current case (recover mode: execution goes on)
+static void read_all(const void* p, size_t n) {
+    uint64_t s = 0; auto c = (const volatile uint8_t*)p;
+    for (size_t i = 0; i < n && !g_asan_hits; i++) s += c[i];      // (one report per case is enough)
+    g_sink += s;
+}
 
 // fatal events: the case description is prepared before the real code runs
 static char* g_desc = nullptr;      // lives in its own mapping: a wild write of the code under test must not garble the evidence
@@ -331,9 +339,18 @@ static void my_fatal(int sig) {
     }
     _exit(3);
 }
+static const char* g_fault_stage = ""; static int g_fault_fwi = 0;
 static void asan_report(const char* rep) {
+    if (g_asan_hits++) return;
+    g_fault_stage = g_stage; g_fault_fwi = g_fwi;
     const char* p = strstr(rep, "AddressSanitizer: ");
     if (p) { p += 18; size_t i = 0; while (p[i] && p[i] != ' ' && p[i] != '\n' && i < sizeof(g_asan) - 1) { g_asan[i] = p[i]; i++; } g_asan[i] = 0; }
+}
+// signals raised inside the real code: back to run_case
+static sigjmp_buf g_jmp; static volatile sig_atomic_t g_injmp = 0; static volatile int g_sig = 0;
+static void on_signal(int sig) {
+    if (g_injmp) { g_injmp = 0; g_sig = sig; if (!g_asan_hits) { g_fault_stage = g_stage; g_fault_fwi = g_fwi; } siglongjmp(g_jmp, 1); }
+    my_fatal(sig);
 }
 
 struct Observe {        // archive over the RECEIVED message: where is every field, read every byte
@@ -518,6 +535,19 @@ template <class T> static void deser_observe(IOVector& iov, const Inst& in, Out&
     o.lk = L.str(); o.fd = F.str();
 }
 
+// the part of a case that may fault.  Returns false if it was left through a signal.
+static __attribute__((noinline)) bool attempt(const Shape& sh, const Inst& in, Input& inp, bool observe, Out& o) {
+    if (sigsetjmp(g_jmp, 1)) return false;
+    g_injmp = 1;
+    {
+        IOVector iov(IOAlloc(IOAlloc::Allocator(nullptr, &rec_alloc), IOAlloc::Deallocator(nullptr, &rec_dealloc)));
+        for (auto& e : inp.els) iov.push_back(e.p, e.n);
+        sh.run(iov, in, o, observe);
+        g_injmp = 0;
+    }
+    return true;
+}
+
 // cut: how many bytes are missing.  cut <= V: the last `cut` bytes of the variable part never arrived (the body did);
 // cut > V: only the last N - cut bytes arrived (not even a whole body)
 static void run_case(const Shape& sh, const Inst& in, const char* mode, const std::vector<size_t>& part, size_t cut, const Mut& mu) {
@@ -568,17 +598,24 @@ static void run_case(const Shape& sh, const Inst& in, const char* mode, const st
              ",\"S\":" + std::to_string(in.S) + ",\"N\":" + std::to_string(N) + ",\"sch\":[" + in.sch + "],\"W\":" + W.str() + ",\"SL\":" + SL.str() +
              ",\"part\":" + P.str() + ",\"alt\":" + std::to_string(mu.alt);
     set_desc(desc); g_shared[2] = 0;
-    g_stage = "deser"; g_fwi = 0; g_asan[0] = 0;
+    g_stage = "deser"; g_fwi = 0; g_asan[0] = 0; g_asan_hits = 0; g_sig = 0; g_fault_stage = ""; g_fault_fwi = 0;
     {
-        IOVector iov(IOAlloc(IOAlloc::Allocator(nullptr, &rec_alloc), IOAlloc::Deallocator(nullptr, &rec_dealloc)));
-        for (auto& e : inp.els) iov.push_back(e.p, e.n);
         Out o;
-        sh.run(iov, in, o, strcmp(mode, "alter") != 0);     // an altered message only has to be refused
+        bool done = attempt(sh, in, inp, strcmp(mode, "alter") != 0, o);     // an altered message only has to be refused
         g_stage = "emit";
-        vt::Ev e("Case");
-        e.j += ","; e.j += g_desc;
-        e.s("out", o.ok ? "ok" : "fail").raw("body", o.body).raw("fx", "[" + o.fx + "]").raw("fxe", "[" + in.fxe + "]")
-         .raw("res", "[" + o.res + "]").raw("lk", o.lk).raw("lke", in.lookups.empty() ? "[]" : in.lookups).raw("fd", o.fd);
+        if (!done || g_asan_hits) {
+            vt::Ev e("Fatal");
+            e.j += ","; e.j += g_desc;
+            e.i("sig", g_sig).s("stage", g_fault_stage).i("fwi", g_fault_fwi)
+             .s("asan", g_asan[0] ? g_asan : (g_sig == SIGSEGV ? "SEGV" : g_sig == SIGALRM ? "timeout" : "signal"));
+            g_shared[5]++;
+        } else {
+            vt::Ev e("Case");
+            e.j += ","; e.j += g_desc;
+            e.s("out", o.ok ? "ok" : "fail").raw("body", o.body).raw("fx", "[" + o.fx + "]").raw("fxe", "[" + in.fxe + "]")
+             .raw("res", "[" + o.res + "]").raw("lk", o.lk).raw("lke", in.lookups.empty() ? "[]" : in.lookups).raw("fd", o.fd);
+        }
+        if (!done) { g_in = nullptr; alarm(0); vt::flush(); return; }      // (what the abandoned frames held is leaked)
     }
     for (auto& e : inp.els) free(e.p);
     g_in = nullptr;
@@ -710,8 +747,7 @@ static void sweep_hostile(const Shape& sh, const Inst& in) {
 }
 
 static uint64_t g_seed = 1; static int g_random = 0;
-// phase 0: round trips of every instance; phase 1: hostile sweeps (each in a child of its own: they are the ones that crash)
-static void run_shape_exhaustive(const Shape& sh, int phase) {
+static void run_shape_exhaustive(const Shape& sh) {
     Chooser dry; dry.dry = true; sh.build(sh.name, dry);
     std::vector<int> d(dry.doms.size(), 0);
     size_t ninst = 0;
@@ -719,16 +755,13 @@ static void run_shape_exhaustive(const Shape& sh, int phase) {
         bool last = true; for (size_t i = 0; i < d.size(); i++) last &= (d[i] == dry.doms[i] - 1);
         // hostile sweeps on the fullest instance (every field non-empty) and, thorough, on the emptiest one too
         bool hostile = last || (g_thorough && ninst == 0);
-        if (!skipped("e", ninst) && (!phase || hostile)) {
+        if (!skipped("e", ninst)) {
             Chooser ch; ch.digits = d;
             g_pat = 0;
-            if (!phase) {
-                building(sh.name, "e", ninst);
-                Inst in = sh.build(sh.name, ch);
-                sweep_rt(sh, in);
-            } else {
-                guarded([&] { building(sh.name, "e", ninst); Inst in = sh.build(sh.name, ch); sweep_hostile(sh, in); });
-            }
+            building(sh.name, "e", ninst);
+            Inst in = sh.build(sh.name, ch);
+            sweep_rt(sh, in);
+            if (hostile) sweep_hostile(sh, in);
         }
         ninst++;
         size_t i = 0; for (; i < d.size(); i++) { if (++d[i] < dry.doms[i]) break; d[i] = 0; }
@@ -736,8 +769,7 @@ static void run_shape_exhaustive(const Shape& sh, int phase) {
     }
 }
 static void run_shape(const Shape& sh) {
-    guarded([&] { run_shape_exhaustive(sh, 0); });
-    run_shape_exhaustive(sh, 1);
+    guarded([&] { run_shape_exhaustive(sh); });
     // seeded random larger instances of this shape
     guarded([&] {
       for (int k = 0; k < g_random; k++) {
@@ -802,7 +834,7 @@ static void selfcheck() {
 
 int main(int argc, char** argv) {
     if (!getenv("ASAN_OPTIONS")) {     // reports are events here, not something to read: no symbolizer, no leak check
-        setenv("ASAN_OPTIONS", "abort_on_error=1:detect_leaks=0:handle_abort=0:symbolize=0:fast_unwind_on_fatal=1:print_summary=0", 1);
+        setenv("ASAN_OPTIONS", "halt_on_error=0:abort_on_error=1:detect_leaks=0:handle_abort=0:symbolize=0:fast_unwind_on_fatal=1:print_summary=0", 1);
         setenv("UBSAN_OPTIONS", "abort_on_error=1:halt_on_error=1:symbolize=0", 1);
         execv("/proc/self/exe", argv);
     }
@@ -817,12 +849,15 @@ int main(int argc, char** argv) {
     g_shared = (volatile uint64_t*)mmap(nullptr, 4096, PROT_READ | PROT_WRITE, MAP_SHARED | MAP_ANONYMOUS, -1, 0);
     g_desc = (char*)mmap(nullptr, DESC_MAX, PROT_READ | PROT_WRITE, MAP_PRIVATE | MAP_ANONYMOUS, -1, 0); g_desc[0] = 0;
     selfcheck();
-    for (int s : {SIGSEGV, SIGBUS, SIGABRT, SIGFPE, SIGILL, SIGALRM}) signal(s, my_fatal);
+    for (int s : {SIGSEGV, SIGBUS, SIGFPE, SIGILL, SIGALRM}) {
+        struct sigaction sa; memset(&sa, 0, sizeof sa); sa.sa_handler = on_signal; sa.sa_flags = SA_NODEFER | SA_ONSTACK; sigaction(s, &sa, nullptr);
+    }
+    signal(SIGABRT, my_fatal);
     __asan_set_error_report_callback(asan_report);
     if (!vt::flag(argc, argv, "--stderr")) { if (!freopen("/dev/null", "w", stderr)) {} }
     for (auto& sh : all_shapes()) { g_shape_no++; if (!only_shape[0] || !strcmp(only_shape, sh.name)) run_shape(sh); }
     vt::close();
-    printf("cases=%lu fatal=%lu\n", (unsigned long)g_id, (unsigned long)g_fatals);
+    printf("cases=%lu fatal=%lu restarts=%lu\n", (unsigned long)g_id, (unsigned long)g_shared[5], (unsigned long)g_fatals);
     return 0;
 }
 
